@@ -15,3 +15,23 @@ pub assume_specification [char::is_ascii] (c: &char) -> (r: bool) ensures r == (
 pub assume_specification [u8::is_ascii_lowercase] (c: &u8) -> (r: bool) ensures r == (97 <= *c && *c <= 122);
 pub assume_specification [u8::is_ascii_uppercase] (c: &u8) -> (r: bool) ensures r == (65 <= *c && *c <= 90);
 pub assume_specification [u8::is_ascii_digit] (c: &u8) -> (r: bool) ensures r == (48 <= *c && *c <= 57);
+// Unicode classification predicates of `char`: exact on ASCII, uninterpreted beyond (the Unicode tables are not modelled);
+// `is_control` (Cc) is small enough to state exactly.
+pub uninterp spec fn oq3_alphabetic(c: char) -> bool;
+pub uninterp spec fn oq3_numeric(c: char) -> bool;
+pub uninterp spec fn oq3_lowercase(c: char) -> bool;
+pub uninterp spec fn oq3_uppercase(c: char) -> bool;
+pub assume_specification [char::is_alphabetic] (c: char) -> (r: bool)
+    ensures r == oq3_alphabetic(c), (c as u32) < 128 ==> r == (('a' <= c && c <= 'z') || ('A' <= c && c <= 'Z'));
+pub assume_specification [char::is_numeric] (c: char) -> (r: bool)
+    ensures r == oq3_numeric(c), (c as u32) < 128 ==> r == ('0' <= c && c <= '9');
+pub assume_specification [char::is_alphanumeric] (c: char) -> (r: bool)
+    ensures r == (oq3_alphabetic(c) || oq3_numeric(c)),
+        (c as u32) < 128 ==> r == (('a' <= c && c <= 'z') || ('A' <= c && c <= 'Z') || ('0' <= c && c <= '9'));
+pub assume_specification [char::is_lowercase] (c: char) -> (r: bool)
+    ensures r == oq3_lowercase(c), (c as u32) < 128 ==> r == ('a' <= c && c <= 'z');
+pub assume_specification [char::is_uppercase] (c: char) -> (r: bool)
+    ensures r == oq3_uppercase(c), (c as u32) < 128 ==> r == ('A' <= c && c <= 'Z');
+// (char::is_whitespace already has a specification in vstd)
+pub assume_specification [char::is_control] (c: char) -> (r: bool)
+    ensures r == ((c as u32) <= 0x1F || (0x7F <= (c as u32) && (c as u32) <= 0x9F));
